@@ -319,3 +319,47 @@ package node
 //@   modifies *
 //@   modifies $mayWrite, $initEvent, $fx, $sends, $lastSent, $stored, $pend, $retired, $dos, $savedAtDo, $bufc
 //@   assert@call executeOperation[C15.approve] string(operation.Type) == "state_sig_proposal_await_participants_confirmations" && loc(pid) != -1 && operation.Event == "event_sig_proposal_confirm_by_participant" && len(operation.ResultMsgs) >= 1
+
+// ---- the remaining entry points of the local API: whatever the (bound and validated) request body holds, the node
+// answers with success or an error, never with a fault (thin safety contracts, C18). The node is assembled by NewNode
+// with all its services set.
+//@ spec func wfNode(s *BaseNodeService) bool = s != nil && s.storage != nil && s.fsmService != nil && s.state != nil && s.keyStore != nil && s.opService != nil && s.sigService != nil && s.Logger != nil
+//@ func (*BaseNodeService).SendMessage
+//@   safety C18
+//@   requires wfNode(s) && dto != nil
+//@   modifies *
+//@   modifies $fx, $sends, $lastSent
+//@ func (*BaseNodeService).StartDKG
+//@   safety C18
+//@   requires wfNode(s) && dto != nil
+//@   modifies *
+//@   modifies $fx, $sends, $lastSent
+//@ func (*BaseNodeService).ReInitDKG
+//@   safety C18
+//@   requires wfNode(s) && dto != nil
+//@   modifies *
+//@   modifies $fx, $sends, $lastSent
+//@ func (*BaseNodeService).SaveOffset
+//@   safety C18
+//@   requires wfNode(s) && dto != nil
+//@   modifies *
+//@   modifies $offsetSaves
+// (ProposeSignMessages itself is not under contract: it runs the round's machine to read its state, whose
+// well-formedness is established by FromDump and is not carried through the assumed FSMService interface)
+//@ func extractTasksFromDTO
+//@   safety C18
+//@   requires dtoMsg != nil
+//@   modifies *
+// (the index into the alphabet comes from crypto/rand.Int below the alphabet's length: big.Int is not modelled, the
+// string index is left out)
+//@ func createSignID
+//@   safety C18
+//@   safetykinds nil, type assertion, slice bounds, index out of range: t, map, divide
+//@   modifies *
+//@ func GetAdaptedReDKG
+//@   safety C18
+//@   requires originalDKG != nil
+//@   modifies *
+//@ func createMessage
+//@   safety C18
+//@   modifies *
